@@ -63,6 +63,13 @@ func main() {
 		}
 		cleanupScratch()
 		os.Exit(rc)
+	case "effects-infer":
+		p, err := LoadProgram(repoDir())
+		if err != nil {
+			fmt.Println("load error:", err)
+			os.Exit(2)
+		}
+		cmdEffectsInfer(p)
 	case "surface":
 		p, err := LoadProgram(repoDir())
 		if err != nil {
